@@ -22,6 +22,7 @@ import (
 
 var (
 	errConvertFieldTypeNotMatch = errors.New("ekit: 转化字段类型不匹配")
+	errNilPointer               = errors.New("ekit: copier 的 src 和 dst 不能为 nil")
 )
 
 // newErrTypeError copier 不支持的类型
